@@ -111,6 +111,7 @@ func (m MetavarMatcher) Match(got reflect.Value, d data.Data, r Region) (data.Da
 	return data.WithValue(d, key, metavarData{
 		Matcher:  newMatcherCompiler(m.Fset, nil, r.Pos, r.End).compile(got),
 		Replacer: newReplacerCompiler(m.Fset, nil, r.Pos, r.End).compile(got),
+		source:   got.Interface(),
 	}), true
 }
 
@@ -119,6 +120,9 @@ type metavarKey string
 type metavarData struct {
 	Matcher
 	Replacer
+
+	// The node that was captured. It identifies the binding.
+	source any
 }
 
 func isExpression(t reflect.Type) bool {
